@@ -51,13 +51,17 @@
        checkpoint - succeeds, ends with the same integrand-call count in a checkpoint [d'] with
        [ser d' = ser c'] (and [vchk_eqv c' d'] / [mchk_eqv c' d']; PLAIN: [d' = c'], and the logs
        are equal), and its log is pairwise related to [ls].  Induction over the list of pieces.
-       Hypotheses: every checkpoint the uninterrupted run showed to its callback (and the prepared
-       initial one) is well formed in the sense of C05 ([wf_pchk] / [wf_vchk] / [wf_mchk]: array
-       lengths agree with the stored counts) so that it can be read back; the callback respects the
-       text (VEGAS, multi-channel).
+       Hypotheses: the (prepared) INITIAL checkpoint is well formed in the sense of C05 ([wf_pchk] /
+       [wf_vchk] / [wf_mchk]: array lengths agree with the stored counts); the callback respects the
+       text (VEGAS, multi-channel).  [C03_reachable_wf]: every checkpoint a run from a well-formed
+       checkpoint shows to its callback is well formed (the accumulator keeps one cell per bin of every
+       distribution in [ps], refinement returns bins + 1 boundaries per dimension, the adjustment data
+       keep their lengths), hence can be read back; [C03_fresh_wf]: fresh checkpoints (default; user
+       grid with the right number of boundaries; user weights) are well formed.  The generic form keeps
+       the per-checkpoint hypothesis [ok].
 
-    NOT PROVED / ASSUMED.  (1) Well-formedness of the checkpoints produced by iterations is a
-    hypothesis, not derived from the iteration code.  (2) The integrand's call counter (the state of a
+    NOT PROVED / ASSUMED.  (1) Well-formedness of the initial checkpoint is a hypothesis (for a
+    checkpoint that was itself read from a text it is C05's condition on that text).  (2) The integrand's call counter (the state of a
     stateful integrand object; [o_idx] in the model) is threaded through the pieces: the checkpoint does
     not store user state, so "the remaining iterations" are run with the integrand object in the state
     the interrupted run left it (immaterial for integrands that ignore [o_idx]).  (3) The decimal
@@ -195,6 +199,29 @@ Theorem C03_builtin_callback_respects_text : forall (K : Num) (target : K),
 Proof. exact (@builtin_cb_text). Qed.
 Print Assumptions C03_builtin_callback_respects_text.
 
+(** 3b. runs keep checkpoints well formed (C05's [wf_*]) *)
+Theorem C03_reachable_wf : forall (K : Num) (L : Libm K) strm ps f mp,
+  (forall d cb cs (c : pchk K) idx c' idx' ls,
+     plain_run strm ps f d cb cs c idx = Ok (c', idx', ls) -> wf_pchk c = true ->
+     forall x, In x (chks _ _ c ls) -> wf_pchk x = true) /\
+  (forall d cb cs (c : vchk K) idx c' idx' ls,
+     vegas_run L strm ps f d cb cs c idx = Ok (c', idx', ls) -> wf_vchk (vchk_dimensions c d) = true ->
+     forall x, In x (chks _ _ (vchk_dimensions c d) ls) -> wf_vchk x = true) /\
+  (forall d n cb cs (c : mchk K) idx c' idx' ls,
+     mc_run L strm ps f mp d n cb cs c idx = Ok (c', idx', ls) -> wf_mchk (mchk_channels c n) = true ->
+     forall x, In x (chks _ _ (mchk_channels c n) ls) -> wf_mchk x = true).
+Proof. exact (@reachable_wf). Qed.
+Print Assumptions C03_reachable_wf.
+
+Theorem C03_fresh_wf : forall K : Num,
+  (forall g, wf_pchk (K:=K) (base_init g) = true) /\
+  (forall bins (alpha : K) g d, wf_vchk (vchk_dimensions (vchk_default bins alpha g) d) = true) /\
+  (forall (p : pdf K) alpha g d, wf_pdf p = true -> wf_vchk (vchk_dimensions (vchk_user p alpha g) d) = true) /\
+  (forall minw beta g n, wf_mchk (mchk_channels (mchk_default (K:=K) minw beta g) n) = true) /\
+  (forall (c : mchk K) n, wf_mchk c = true -> wf_mchk (mchk_channels c n) = true).
+Proof. exact (@fresh_wf). Qed.
+Print Assumptions C03_fresh_wf.
+
 (** 4. any composition *)
 Theorem C03_resume_any_composition : forall (C R Evt : Type) (gen_of : C -> res N)
     (iterate : C -> N -> N -> N -> res (R * N * N * list Evt)) (add : C -> R -> N -> C) (cb : C -> bool),
@@ -224,33 +251,33 @@ Print Assumptions C03_resume_any_composition.
 Theorem C03_resume_any_composition_plain : forall (K : Num) strm ps f (digits10 : string) d cb p0 pcs cs (c : pchk K) idx c' idx' ls,
   plain_run strm ps f d cb cs c idx = Ok (c', idx', ls) ->
   p0 ++ concat pcs = firstn (length ls) cs ->
-  (forall x, In x (chks _ _ c ls) -> wf_pchk x = true) ->
+  wf_pchk c = true ->
   run_pieces (plain_run strm ps f d cb) (plain_reload digits10) p0 pcs c idx = Ok (c', idx', ls).
-Proof. exact (@plain_pieces). Qed.
+Proof. exact (@plain_pieces_wf). Qed.
 Print Assumptions C03_resume_any_composition_plain.
 
 Theorem C03_resume_any_composition_vegas : forall (K : Num) (L : Libm K) strm ps f (digits10 : string) d cb p0 pcs cs (c : vchk K) idx c' idx' ls,
   (forall x y, vchk_eqv x y -> cb x = cb y) ->
   vegas_run L strm ps f d cb cs c idx = Ok (c', idx', ls) ->
   p0 ++ concat pcs = firstn (length ls) cs ->
-  (forall x, In x (chks _ _ (vchk_dimensions c d) ls) -> wf_vchk x = true) ->
+  wf_vchk (vchk_dimensions c d) = true ->
   exists d' ls',
     run_pieces (vegas_run L strm ps f d cb) (vchk_reload digits10) p0 pcs c idx = Ok (d', idx', ls') /\
     vchk_eqv c' d' /\ Forall2 (log_eqv _ _ vchk_eqv) ls ls' /\
     ser_vchk digits10 d' = ser_vchk digits10 c' /\ (exists t, ser_vchk digits10 c' = Ok t).
-Proof. exact (@vegas_pieces). Qed.
+Proof. exact (@vegas_pieces_wf). Qed.
 Print Assumptions C03_resume_any_composition_vegas.
 
 Theorem C03_resume_any_composition_multi_channel : forall (K : Num) (L : Libm K) strm ps f mp (digits10 : string) d n cb p0 pcs cs (c : mchk K) idx c' idx' ls,
   (forall x y, mchk_eqv x y -> cb x = cb y) ->
   mc_run L strm ps f mp d n cb cs c idx = Ok (c', idx', ls) ->
   p0 ++ concat pcs = firstn (length ls) cs ->
-  (forall x, In x (chks _ _ (mchk_channels c n) ls) -> wf_mchk x = true) ->
+  wf_mchk c = true ->
   exists d' ls',
     run_pieces (mc_run L strm ps f mp d n cb) (mchk_reload digits10) p0 pcs c idx = Ok (d', idx', ls') /\
     mchk_eqv c' d' /\ Forall2 (log_eqv _ _ mchk_eqv) ls ls' /\
     ser_mchk digits10 d' = ser_mchk digits10 c'.
-Proof. exact (@mc_pieces). Qed.
+Proof. exact (@mc_pieces_wf). Qed.
 Print Assumptions C03_resume_any_composition_multi_channel.
 
 (** Non-vacuity: real runs in double precision satisfy the hypotheses (the run succeeds, every checkpoint
